@@ -14,9 +14,9 @@ func init() {
 		Rule: "one run = one way of constructing a queue limiter (FromConfig with FIFO / LIFO / empty ordering, WithDefaults, the deprecated Lifo/Fifo constructors with and without defaults, FixedPool and Pool with FIFO/LIFO), limit 1..2, 2..6 waiters whose arrival order is fixed by running each arrival to a stable point, then a seeded sequence of releases, backlog timeouts (distinct arrival instants on the virtual clock) and cancellations; " +
 			"oracle: after each release the caller that returns granted is the oldest (FIFO) / newest (LIFO) among those still waiting in a reference list; " +
 			"non-trivial = at least one release happened with two or more callers waiting; distinct = distinct (constructor, arrival pattern, action sequence, grants) hashes",
-		Real:       []string{"limiter.QueueBlockingLimiter", "limiter.LifoBlockingLimiter", "limiter.FifoBlockingLimiter", "patterns/pool", "limiter.DefaultLimiter", "strategy.*"},
-		Stubs:      []string{"logger", "recording metric registry"},
-		FaultKinds: []string{"F-timeout", "F-cancel"},
+		Real:        []string{"limiter.QueueBlockingLimiter", "limiter.LifoBlockingLimiter", "limiter.FifoBlockingLimiter", "patterns/pool", "limiter.DefaultLimiter", "strategy.*"},
+		Stubs:       []string{"logger", "recording metric registry"},
+		FaultKinds:  []string{"F-timeout", "F-cancel"},
 		Assumptions: []string{"releases are never scheduled at the exact expiry instant of a waiter (the order would be legitimately ambiguous)"},
 	})
 }
@@ -105,12 +105,12 @@ func runC11(r *Run) {
 		held = append(held, l)
 	}
 	type waiter struct {
-		tk       *Task
-		arrived  int64
-		returned bool
-		granted  bool
-		retT     int64
-		l        core.Listener
+		tk        *Task
+		arrived   int64
+		returned  bool
+		granted   bool
+		retT      int64
+		l         core.Listener
 		cancelled bool
 	}
 	ws := make([]*waiter, nW)
